@@ -17,7 +17,8 @@ PROP = 'C16'
 LEVEL = 'exploration'
 RULE = ('generated single-namespace class trees of depth <= 3 with primitive/array members at every level; signatures that declare the '
         'base (plain, wrapped array, repeated member, nested in another object) and receive/return instances of every subclass; x '
-        '{XmlDocument, Soap11, Soap12, Json, Yaml, MessagePack} x polymorphic {on, off} x direction {request, response}; non-trivial = '
+        '{XmlDocument, Soap11, Soap12, Json, Yaml, MessagePack} x polymorphic {on, off} x direction {request, response}; every tree of depth 3 is additionally declared in two stages (roots and '
+        'children first, used by an application; the deeper classes afterwards) and the grown tree judged the same way; non-trivial = '
         'an instance of a proper subclass travelled and was compared; distinct by (protocol, polymorphic, direction, slot shape, '
         'declared->runtime class distance).')
 ASSUMPTIONS = [
@@ -163,17 +164,44 @@ def ancestors_first(ir, el_or_doc, cname, kind):
     return dedup == order, dedup, order
 
 
-def run_universe(R, seed, uid, tier):
+def staged(ir):
+    """the same class tree declared in two stages: first only the roots and their direct children, later the rest
+    (a plug-in module imported after the application has served requests)"""
+    late = [t['name'] for t in ir['types'] if t['name'] != 'Holder' and depth_of(ir['types'], t['name']) >= 3]
+    if not late:
+        return None
+    early = dict(ir, types=[t for t in ir['types'] if t['name'] not in late])
+    return early, late
+
+
+def run_universe(R, seed, uid, tier, grow=False):
     from spyne.server import ServerBase
     ir = universe(seed, uid)
-    rng = core.rng_for(seed, PROP, 'vals%d' % uid)
+    rng = core.rng_for(seed, PROP, 'vals%d%s' % (uid, 'g' if grow else ''))
     kinds = list(XML_KINDS + DICT_KINDS)
     if tier == 'quick':
         kinds = [rng.choice(XML_KINDS), rng.choice(XML_KINDS), rng.choice(DICT_KINDS)]
+    st = staged(ir) if grow else None
+    if grow and st is None:
+        return
+    if grow:
+        kinds = list(DICT_KINDS) + ([rng.choice(XML_KINDS)] if tier == 'quick' else list(XML_KINDS))
     for kind in kinds:
-        for poly in (True, False):
+        for poly in ((True,) if grow else (True, False)):
             try:
-                B = gen.Built(ir)
+                if grow:
+                    # stage 1: the early classes serve requests; stage 2: the late subclasses are declared and a fresh
+                    # application over the grown tree is judged exactly like any other
+                    early, late = st
+                    B = gen.Built(early)
+                    exercise_early(R, B, early, kind, rng)
+                    # stage 2 declares nothing but the late classes and plain signatures: declaring an Array or a customised
+                    # variant would reset what the library memoised about the tree, and a plug-in need not do that
+                    ir = dict(ir, services=[dict(sd, methods=[m for m in sd['methods'] if m['name'].startswith('plain')]) for sd in ir['services']])
+                    B.grow(ir)
+                    R.count('grown_trees')
+                else:
+                    B = gen.Built(ir)
                 inp, outp = make_protocols(kind, poly)
                 app = B.app(inp, outp)
                 if kind in XML_KINDS:
@@ -192,7 +220,7 @@ def run_universe(R, seed, uid, tier):
                     (an, at), = md['args']
                     arg = gen.gen_value(rng, ir, at, top=True, subclass_ok=True)
                     ret = gen.gen_value(rng, ir, md['returns'][0], top=True, subclass_ok=True)
-                    case = {'seed': seed, 'uid': uid, 'kind': kind, 'polymorphic': poly, 'method': md['name'], 'call': k}
+                    case = {'seed': seed, 'uid': uid, 'kind': kind, 'polymorphic': poly, 'method': md['name'], 'call': k, 'grow': grow}
                     nsub_a, nsub_r = count_sub(ir, at, arg), count_sub(ir, md['returns'][0], ret)
                     # request: with polymorphic off a client can only send what the declared class carries
                     send = arg if poly else strip_to_declared(ir, at, arg)
@@ -229,7 +257,7 @@ def run_universe(R, seed, uid, tier):
                                     mech='request_class_or_values:%s:%s:%s' % (kind, 'poly' if poly else 'plain', 'class' if any('class' in x for x in d) else 'value'))
                     elif poly and nsub_a:
                         R.count('subclass_instances_sent', nsub_a)
-                        R.nontrivial(kind, poly, 'request', gen.shape(at), min(nsub_a, 3))
+                        R.nontrivial(kind, poly, 'request', gen.shape(at), min(nsub_a, 3), grow)
                     # response
                     expect = ret if poly else strip_to_declared(ir, md['returns'][0], ret)
                     try:
@@ -257,7 +285,7 @@ def run_universe(R, seed, uid, tier):
                     else:
                         if nsub_r and poly:
                             R.count('subclass_instances_sent', nsub_r)
-                        R.nontrivial(kind, poly, 'response', gen.shape(md['returns'][0]), min(nsub_r, 3))
+                        R.nontrivial(kind, poly, 'response', gen.shape(md['returns'][0]), min(nsub_r, 3), grow)
                         R.cell('%s|%s' % (kind, 'poly' if poly else 'plain'))
                         if len(R.samples) < 3 and nsub_r and poly:
                             R.sample({'case': {k2: case[k2] for k2 in ('kind', 'polymorphic', 'method')}, 'returned_class': ret.get('__class__') if isinstance(ret, dict) else None,
@@ -276,14 +304,44 @@ def run_universe(R, seed, uid, tier):
                             pass
 
 
+def exercise_early(R, B, early, kind, rng):
+    """stage 1 of a growing tree: every method of the early application is called once with subclass instances, so that
+    whatever the library memoises about the tree is memoised before the tree grows (results are not judged here)"""
+    from spyne.server import ServerBase
+    inp, outp = make_protocols(kind, True)
+    app = B.app(inp, outp)
+    if kind in XML_KINDS:
+        w = app.interface.docs.wsdl11
+        w.build_interface_document('http://localhost/')
+        W = refxml.Wire(B, w.get_interface_document(), rng)
+    else:
+        codec = refdict.Codec(early, refdict.Conf(kind, False, 'dict', False))
+    server = ServerBase(app)
+    for md in early['services'][0]['methods']:
+        (an, at), = md['args']
+        arg = gen.gen_value(rng, early, at, top=True, subclass_ok=True)
+        try:
+            if kind in XML_KINDS:
+                el = W.request_element(md, [arg])
+                data = W.serialize(el if kind == 'xml' else W.envelope(el, 11 if kind == 'soap11' else 12))
+            else:
+                data = codec.dumps(codec.request(md, [arg]))
+        except (refxml.NotConformant, refxml.SchemaMismatch, refdict.NotConformant):
+            continue
+        B.returns[md['name']] = B.to_spyne(md['returns'][0], gen.gen_value(rng, early, md['returns'][0], top=True, subclass_ok=True))
+        drive.drive_server(server, data)
+        R.count('early_stage_calls')
+
+
 def run(spec, R):
     for uid in range(spec['first'], spec['first'] + spec['count']):
         run_universe(R, spec['seed'], uid, spec['tier'])
+        run_universe(R, spec['seed'], uid, spec['tier'], grow=True)
 
 
 def replay(v, R):
     c = v['repro']
-    run_universe(R, c['seed'], c['uid'], 'thorough')
+    run_universe(R, c['seed'], c['uid'], 'thorough', grow=bool(c.get('grow')))
     for x in R.violations[:10]:
         print('replayed:', x.get('mech'), x.get('what')[:300])
 
